@@ -150,12 +150,13 @@ impl PhysicalOperator for DelimJoinExec {
         crate::physical::check_partition(self, partition)?;
 
         // Step 1: Collect all rows from the outer side
-        let mut outer_batches = Vec::new();
-        let outer_stream = self.left.execute(0).await?;
-        let collected: Vec<Result<RecordBatch>> = outer_stream.collect().await;
-        for batch_result in collected {
-            outer_batches.push(batch_result?);
-        }
+        // Every declared partition of the outer side, not just partition 0 (a
+        // multi-partition scan would otherwise lose most of its rows).
+        let (outer_batches, _) =
+            crate::physical::operators::spillable::collect_input_partitions_concurrently(
+                &self.left,
+            )
+            .await?;
 
         if outer_batches.is_empty() {
             return Ok(Box::pin(stream::empty()));
@@ -171,12 +172,11 @@ impl PhysicalOperator for DelimJoinExec {
             .set_distinct_values(distinct_batch.clone(), distinct_batch.schema());
 
         // Step 4: Execute the inner side (which will use DelimGet with our values)
-        let mut inner_batches = Vec::new();
-        let inner_stream = self.right.execute(0).await?;
-        let collected: Vec<Result<RecordBatch>> = inner_stream.collect().await;
-        for batch_result in collected {
-            inner_batches.push(batch_result?);
-        }
+        let (inner_batches, _) =
+            crate::physical::operators::spillable::collect_input_partitions_concurrently(
+                &self.right,
+            )
+            .await?;
 
         // Step 5: Build hash table from inner results
         let inner_hash = build_hash_table(&inner_batches, &self.on)?;
